@@ -138,6 +138,14 @@ def run(f, fixture, rep, cfg, tier):
         params = [b.local_name(i) for i in range(1, b.argc + 1)]
         rep.check(stored in params, "R3", "%s|stores-argument" % key, "%s stores its argument unchanged" % key,
                   "%s stores %s, not its argument" % (b.path, stored[:120]), "%s:%s" % (b.file, st.get("line")))
+        # ... and nothing edits that text in place between validation and storage (truncate / push / make_ascii_lowercase ...)
+        edits = []
+        for i in range(1, len(b.locals)):
+            if b.local_name(i) == stored or (i <= b.argc and stored in params and b.local_name(i) == stored):
+                edits += [c.decl for (c, _ai) in b.mut_borrow_calls(i)]
+                edits += ["assignment" for (_bb, _idx, kind, _pl, lhs_proj) in b.defs(i) if kind == "assign" and i <= b.argc]
+        rep.check(not edits, "R3", "%s|unedited" % key, "%s never edits the text it stores" % key,
+                  "%s edits the validated text in place (%s) before storing it: the stored capability text is not the caller's" % (b.path, sorted(set(edits))), "%s:%s" % (b.file, st.get("line")))
     disp = [b for b in f.body_list if b.impl_trait == "std::fmt::Display" and (b.impl_self or "").endswith("filecaps::FileCaps") and b.name == "fmt"]
     if rep.anchor(len(disp) == 1, "R3", "Display for FileCaps"):
         t = TermBuilder(disp[0])
@@ -177,7 +185,42 @@ def run(f, fixture, rep, cfg, tier):
         elif vals <= OPS and vals and len(vals) > 1:
             adj_sw = (sb, t)
     errs = error_blocks(vs)
-    if rep.check(char_sw is not None, "R5", "suffix|char-switch", "validate_suffix dispatches on the character", "no character dispatch found in validate_suffix", vs.span):
+    # the verdict table itself, whatever the code's shape: abstract evaluation of validate_suffix on a symbolic text of up to four
+    # characters (suffixfsm.py), compared with the specification for every class assignment consistent with each path.  When the
+    # body cannot be evaluated (it leaves the domain) the structural rules below decide instead.
+    table_decides = False
+    try:
+        from suffixfsm import evaluate_validator, check_against
+        from absint import LeaveDomain as _LD
+
+        def suffix_spec(cs):
+            last = None
+            for ch_ in cs:
+                if ch_ in OPS:
+                    if last in OPS:
+                        return "Err"
+                elif ch_ in FLAGS:
+                    if last is None:
+                        return ("Ok", "panic")      # never reached from validate_caps_text (R6 / C17 allow entry): a debug assertion
+                else:
+                    return "Err"
+                last = ch_
+            return "Ok"
+        try:
+            tab = evaluate_validator(f, vs, 4)
+            alphabet = sorted(OPS | FLAGS | {ord("x"), ord("E"), ord(" "), 0xe9, 0})
+            bad, n_cmp, _cov = check_against(tab, suffix_spec, alphabet)
+            table_decides = True
+            rep.floor("R5", "suffix verdicts compared with the specification (texts of up to 4 characters over an 11-letter alphabet)", n_cmp, 16105)
+            rep.check(not bad, "R5", "suffix|table", "validate_suffix accepts exactly operator/flag texts without adjacent operators (all texts up to 4 characters)",
+                      "validate_suffix gives the wrong verdict, e.g. %s" % ", ".join("`%s` -> %s (expected %s)" % (t_, g_, "/".join(w_)) for (t_, g_, w_) in bad[:4]), vs.span)
+        except _LD as e_:
+            rep.notes.append("validate_suffix left the abstract domain (%s): structural rules decide" % str(e_)[:120])
+    except ImportError:
+        pass
+    if table_decides:
+        char_sw = adj_sw = None
+    elif rep.check(char_sw is not None, "R5", "suffix|char-switch", "validate_suffix dispatches on the character", "no character dispatch found in validate_suffix", vs.span):
         sb, t = char_sw
         by_target = {}
         for x, bb in t["targets"]:
@@ -187,7 +230,7 @@ def run(f, fixture, rep, cfg, tier):
                   "character classes are %s" % [[chr(c) for c in g] for g in groups], vs.span)
         r = reach_from(vs, t["otherwise"], blocked_blocks={sb})
         rep.check(bool(r & errs), "R5", "suffix|other-char", "any other character is an error", "other characters do not lead to an error", vs.span)
-    if rep.check(adj_sw is not None, "R5", "suffix|adjacency-switch", "the previous character is tested in the operator arm", "no adjacency test found", vs.span):
+    if not table_decides and rep.check(adj_sw is not None, "R5", "suffix|adjacency-switch", "the previous character is tested in the operator arm", "no adjacency test found", vs.span):
         sb, t = adj_sw
         vals = {int(x) for x, _b in t["targets"]}
         tgt = {bb for _x, bb in t["targets"]}
